@@ -1057,6 +1057,16 @@ impl TypedExpr {
                         }
                         circuit.push_panic_if(all_zero, PanicReason::DivByZero, meta);
                         if is_signed(ty) {
+                            // dividing the minimum value by -1 overflows:
+                            let mut min_by_minus_one = x[0];
+                            for &w in x.iter().skip(1) {
+                                let not_w = circuit.push_not(w);
+                                min_by_minus_one = circuit.push_and(min_by_minus_one, not_w);
+                            }
+                            for &w in y.iter() {
+                                min_by_minus_one = circuit.push_and(min_by_minus_one, w);
+                            }
+                            circuit.push_panic_if(min_by_minus_one, PanicReason::Overflow, meta);
                             circuit.push_signed_division_circuit(&mut x, &mut y).0
                         } else {
                             circuit.push_unsigned_division_circuit(&x, &y).0
